@@ -132,7 +132,7 @@ def run(tier, seed):
     rng = random.Random(seed)
     quick = tier == "quick"
     B, S = (2, 2) if quick else (3, 3)
-    nrand, depth, budget = (700, 3, 9) if quick else (5000, 4, 14)
+    nrand, depth, budget = (700, 3, 9) if quick else (3000, 4, 14)
     extras = families(B, S)
     nfam = len(extras)
     extras += random_programs(rng, nrand, depth, budget)
